@@ -6,6 +6,7 @@ import (
 	"go/constant"
 	"go/token"
 	"go/types"
+	"sort"
 	"strconv"
 	"strings"
 
@@ -309,4 +310,310 @@ func importsTransitively(p *types.Package, path string, seen map[*types.Package]
 		}
 	}
 	return false
+}
+
+// ---- defer / recover ----
+
+// isRecoverHandler reports whether the deferred call is a function literal that calls recover().
+func isRecoverHandler(d *ssa.Defer) bool {
+	var f *ssa.Function
+	switch v := d.Call.Value.(type) {
+	case *ssa.MakeClosure:
+		f, _ = v.Fn.(*ssa.Function)
+	case *ssa.Function:
+		f = v
+	}
+	if f == nil {
+		return false
+	}
+	for _, b := range f.Blocks {
+		for _, in := range b.Instrs {
+			if c, ok := in.(*ssa.Call); ok {
+				if bi, ok := c.Call.Value.(*ssa.Builtin); ok && bi.Name() == "recover" {
+					return true
+				}
+			}
+		}
+	}
+	return false
+}
+
+// activeHandler returns the exec (this one or an ancestor) that has executed a deferred recover handler on every
+// path reaching the current point.
+func (ex *Exec) activeHandler() *Exec {
+	for p := ex; p != nil; p = p.parent {
+		if p.inPanicExit || p.curBlock == nil {
+			return nil
+		}
+		for _, d := range p.defers {
+			if isRecoverHandler(d.call) && d.blk.Dominates(p.curBlock) {
+				return p
+			}
+		}
+	}
+	return nil
+}
+
+// panicExit models a panic raised (under condition cond) at the current point and caught by this function's
+// deferred handler: the deferred calls run with a non-nil recover() value, then the function returns through its
+// recover block with the current values of the named results.
+func (ex *Exec) panicExit(cond string, panicVal *Val) {
+	em := ex.em
+	saveSt, savePC, saveRV, saveBlk := ex.curSt, ex.curPC, ex.recoverVal, ex.curBlock
+	defer func() {
+		ex.curSt, ex.curPC, ex.recoverVal, ex.curBlock = saveSt, savePC, saveRV, saveBlk
+		ex.inPanicExit = false
+	}()
+	ex.inPanicExit = true
+	ex.curSt = saveSt.clone()
+	ex.curPC = em.define("pc_panic", sBool, and(savePC, cond))
+	var rv Val
+	if panicVal != nil {
+		rv = *panicVal
+	} else {
+		// a run-time panic: a non-nil value of a run-time error type
+		tag := em.typeTagByName("runtime.Error (run-time panic)")
+		rv = Val{E: fmt.Sprintf("(mk_iface %d %s)", tag, em.newConst("rtpanic", sInt)), S: sIface, T: types.NewInterfaceType(nil, nil)}
+		em.global(fmt.Sprintf("(assert %s)", ex.uf("impl_error", []string{sInt}, sBool, fmt.Sprint(tag))))
+	}
+	ex.recoverVal = &rv
+	for k := len(ex.defers) - 1; k >= 0; k-- {
+		d := ex.defers[k]
+		if d.blk.Dominates(saveBlk) {
+			ex.call(d.call, &d.call.Call)
+		}
+	}
+	ex.recoverVal = saveRV
+	if ex.fn.Recover == nil {
+		var vs []Val
+		res := ex.fn.Signature.Results()
+		for i := 0; i < res.Len(); i++ {
+			vs = append(vs, em.zero(res.At(i).Type()))
+		}
+		ex.returns = append(ex.returns, retSite{pc: ex.curPC, st: ex.curSt, vals: vs})
+		return
+	}
+	for _, in := range ex.fn.Recover.Instrs {
+		switch t := in.(type) {
+		case *ssa.Return:
+			var vs []Val
+			for _, r := range t.Results {
+				vs = append(vs, ex.val(r))
+			}
+			ex.returns = append(ex.returns, retSite{pc: ex.curPC, st: ex.curSt, vals: vs})
+		case *ssa.RunDefers:
+		default:
+			ex.instr(in)
+		}
+	}
+}
+
+// handlePanic: if a recover handler is active, route the panicking executions (pc ∧ ¬goal) through it and report
+// true; the caller then only has to assume the goal on the continuing path.
+func (ex *Exec) handlePanic(pc, goal string, panicVal *Val) bool {
+	h := ex.activeHandler()
+	if h == nil {
+		return false
+	}
+	if h != ex {
+		ex.unsup("panic in an inlined callee caught by a handler of the caller (give the callee a contract)")
+	}
+	ex.em.Assumed["panics in "+funcKey(ex.fn)+" after its deferred recover() handler is installed are modelled as returns through the handler"] = true
+	ex.panicExit(not(goal), panicVal)
+	// the executions that continue past this point are those where no panic happened: strengthen the path condition
+	// (a global assumption "pc ==> goal" would contradict the panicking executions that now return via the handler)
+	if pc == ex.curPC {
+		ex.curPC = ex.em.define("pc_nopanic", sBool, and(pc, goal))
+	} else {
+		ex.curPC = ex.em.define("pc_nopanic", sBool, and(ex.curPC, implies(pc, goal)))
+	}
+	return true
+}
+
+func (em *Emitter) typeTagByName(k string) int {
+	if id, ok := em.typeTags[k]; ok {
+		return id
+	}
+	id := len(em.typeTags) + 1
+	em.typeTags[k] = id
+	em.tagNames = append(em.tagNames, k)
+	return id
+}
+
+// rangeIndexOf recognises the loop generated for "for ... range <slice|array|string>": the head block increments
+// the hidden counter cell "rangeindex" and compares it with the length computed before the loop.
+func rangeIndexOf(head *ssa.BasicBlock) (*ssa.Alloc, ssa.Value) {
+	var cell *ssa.Alloc
+	for _, in := range head.Instrs {
+		if st, ok := in.(*ssa.Store); ok {
+			if a, ok := st.Addr.(*ssa.Alloc); ok && a.Comment == "rangeindex" {
+				cell = a
+			}
+		}
+	}
+	if cell == nil || len(head.Instrs) == 0 {
+		return nil, nil
+	}
+	iff, ok := head.Instrs[len(head.Instrs)-1].(*ssa.If)
+	if !ok {
+		return nil, nil
+	}
+	cmp, ok := iff.Cond.(*ssa.BinOp)
+	if !ok || cmp.Op != token.LSS {
+		return nil, nil
+	}
+	return cell, cmp.Y
+}
+
+// ---- behavioural subtyping: a method inherits the contract of every interface method it implements ----
+
+type inherited struct {
+	key string
+	fc  *FuncContract
+}
+
+// inheritedContracts returns the interface-method contracts that fn (a method) must satisfy.
+func (eng *Engine) inheritedContracts(fn *ssa.Function) []inherited {
+	recv := fn.Signature.Recv()
+	if recv == nil {
+		return nil
+	}
+	var out []inherited
+	var keys []string
+	for k, fc := range eng.CS.Funcs {
+		if fc.Iface && strings.HasSuffix(k, "."+fn.Name()) {
+			keys = append(keys, k)
+		}
+	}
+	sort.Strings(keys)
+	for _, k := range keys {
+		rest := strings.TrimSuffix(k, "."+fn.Name())
+		i := strings.LastIndex(rest, ".")
+		if i < 0 {
+			continue
+		}
+		pkg := eng.typesPkg(rest[:i])
+		if pkg == nil {
+			continue
+		}
+		tn, ok := pkg.Scope().Lookup(rest[i+1:]).(*types.TypeName)
+		if !ok {
+			continue
+		}
+		it, ok := tn.Type().Underlying().(*types.Interface)
+		if !ok {
+			continue
+		}
+		if types.Implements(recv.Type(), it) {
+			out = append(out, inherited{k, eng.CS.Funcs[k]})
+		}
+	}
+	return out
+}
+
+// bindThis binds the interface contract's names for an implementation: "this" is the receiver boxed into the
+// interface, the other parameter names are those of the interface method's signature (positional).
+func (ex *Exec) bindIface(env *Env, in inherited, fn *ssa.Function) (isig *types.Signature) {
+	recvP := fn.Params[0]
+	rv := ex.params[recvP.Name()]
+	if recvP.Name() == "" || recvP.Name() == "_" {
+		rv = ex.vals[recvP]
+	}
+	env.vars["this"] = ex.makeIface(rv, recvP.Type(), types.NewInterfaceType(nil, nil))
+	// positional binding of the remaining parameters under the interface's names
+	rest := strings.TrimSuffix(in.key, "."+fn.Name())
+	i := strings.LastIndex(rest, ".")
+	pkg := ex.eng.typesPkg(rest[:i])
+	tn := pkg.Scope().Lookup(rest[i+1:]).(*types.TypeName)
+	it := tn.Type().Underlying().(*types.Interface)
+	for j := 0; j < it.NumMethods(); j++ {
+		m := it.Method(j)
+		if m.Name() != fn.Name() {
+			continue
+		}
+		sig := m.Type().(*types.Signature)
+		isig = sig
+		for k := 0; k < sig.Params().Len() && k+1 < len(fn.Params); k++ {
+			n := sig.Params().At(k).Name()
+			if n == "" || n == "_" {
+				n = fmt.Sprintf("a%d", k)
+			}
+			env.vars[n] = ex.vals[fn.Params[k+1]]
+		}
+	}
+	env.pkg = pkg
+	return isig
+}
+
+// soleIndexedSlice returns the first expression X that the bound variable v indexes directly (X[v], X not
+// mentioning v). The quantifier is then translated over absolute positions j of X's backing array (v = j - off):
+// the instantiation pattern select(array, j) contains no arithmetic, so facts about a slice transfer to its
+// sub-slices by matching alone.
+func soleIndexedSlice(body CExpr, v string) CExpr {
+	var base CExpr
+	mentions := func(e CExpr) bool {
+		m := false
+		collectIdents(e, func(n string) {
+			if n == v {
+				m = true
+			}
+		})
+		return m
+	}
+	var walk func(e CExpr)
+	walk = func(e CExpr) {
+		if e == nil || base != nil {
+			return
+		}
+		switch x := e.(type) {
+		case *CIndex:
+			if id, isId := x.I.(*CIdent); isId && id.Name == v && !mentions(x.X) {
+				base = x.X
+				return
+			}
+			walk(x.X)
+			walk(x.I)
+		case *CSel:
+			walk(x.X)
+		case *CCall:
+			for _, a := range x.Args {
+				walk(a)
+			}
+		case *CSlice:
+			walk(x.X)
+			walk(x.Lo)
+			walk(x.Hi)
+		case *CUnary:
+			walk(x.X)
+		case *CBinary:
+			walk(x.X)
+			walk(x.Y)
+		case *CCond:
+			walk(x.C)
+			walk(x.A)
+			walk(x.B)
+		case *CQuant:
+			if x.Var == v {
+				return
+			}
+			walk(x.Lo)
+			walk(x.Hi)
+			walk(x.Body)
+		case *CTypeAssert:
+			walk(x.X)
+		}
+	}
+	walk(body)
+	return base
+}
+
+type absIdx struct {
+	varName string
+	sliceE  string
+	abs     string
+}
+
+func isIdentNamed(e CExpr, name string) bool {
+	id, ok := e.(*CIdent)
+	return ok && id.Name == name
 }
